@@ -98,6 +98,32 @@ pub fn boundary_values_raw(code: Code, seed: u64, extras: usize) -> BTreeSet<u64
                     s.insert((off as u64).wrapping_add(d as u64));
                 }
             }
+            // every 7-bit group of every codeword length on its own and in pairs with different
+            // patterns (a group taken from the wrong shift is invisible when all middle groups are equal,
+            // as they are around thresholds and powers of two)
+            let mut t: u128 = 0; // smallest value with nbytes bytes
+            for nbytes in 1..=10u32 {
+                for g in 0..nbytes {
+                    for pat in [1u128, 0x2A, 0x55, 0x7F] {
+                        let v = t + (pat << (7 * g));
+                        if v <= u64::MAX as u128 {
+                            s.insert(v as u64);
+                        }
+                        for g2 in (g + 1)..nbytes {
+                            let v2 = t + (pat << (7 * g)) + ((pat ^ 0x7F | 1) << (7 * g2));
+                            if v2 <= u64::MAX as u128 {
+                                s.insert(v2 as u64);
+                            }
+                        }
+                    }
+                }
+                t += 1u128 << (7 * nbytes);
+            }
+            for v in [0xAAAA_AAAA_AAAA_AAAAu64, 0x5555_5555_5555_5555, 0x0123_4567_89AB_CDEF, 0xFEDC_BA98_7654_3210, 0x8102_0408_2020_4080] {
+                for sh in [0u32, 8, 16, 24, 32, 40, 48, 56] {
+                    s.insert(v >> sh);
+                }
+            }
         }
         Code::Golomb(b) | Code::MinBin(b) => {
             let sbits = if b == 1 { 0 } else { 64 - (b - 1).leading_zeros() };
